@@ -138,9 +138,12 @@ def rule_version_gates(rep: Report, repo: Repo) -> None:
             ok = not any(isinstance(c, ast.Call) and dotted(c.func) == 'unpack' for s in n.body for c in ast.walk(s)) and \
                 any(isinstance(c, ast.Call) and dotted(c.func) == 'unpack' for s in n.orelse for c in ast.walk(s))
             rep.check(ok, 'C06.VERSION-GATES', 'reader:extension-branch', 'Base -> defaults, else unpack', f'{R}:{n.lineno}')
-    w_rel = [t for t in tests(W, 'Writer.add_segment') + tests(W, 'Writer._validate_segment_not_overlapping') if 'RelativeJump' in t]
+    # version tests of add_segment and of the validation helpers it goes through (whatever they are called)
+    w_rel = [t for q in ['Writer.add_segment'] + [f'Writer.{v}' for v in sorted(writer_validator_calls(repo, 'Writer.add_segment'))
+                                                  if repo.has_func(W, f'Writer.{v}')]
+             for t in tests(W, q) if 'RelativeJump' in t]
     r_rel = [t for t in tests(R, 'Reader._init_memory') if 'RelativeJump' in t]
-    rep.check(w_rel == [REL, REL] and r_rel == [REL], 'C06.VERSION-GATES', 'relative-jump', f'writer {w_rel} reader {r_rel}', W, expected=REL)
+    rep.check(bool(w_rel) and set(w_rel) == {REL} and r_rel == [REL], 'C06.VERSION-GATES', 'relative-jump', f'writer {w_rel} reader {r_rel}', W, expected=REL)
     w_c = [t for t in tests(W, 'Writer.write_to_file') if 'Compressed' in t]
     r_c = [t for t in tests(R, 'Reader._read_decompressed_data') if 'Compressed' in t]
     rep.check(w_c == r_c == ['FJMVersion.CompressedVersion == self.version'], 'C06.VERSION-GATES', 'compression',
@@ -227,8 +230,26 @@ def rule_zerofill(rep: Report, repo: Repo) -> None:
               'lazy ranges checked before garbage', f'{R}:{gm.lineno}')
 
 
+def writer_validator_calls(repo: Repo, fn_q: str, seen: Optional[Set[str]] = None) -> Dict[str, ast.Call]:
+    """self._validate_* methods called from a Writer method, followed through intermediate _validate_* helpers (if any):
+    name -> the call node inside fn_q through which it is reached."""
+    out: Dict[str, ast.Call] = {}
+    seen = seen or set()
+    fn = repo.func(W, fn_q)
+    for c in calls(fn):
+        d = dotted(c.func)
+        if d.startswith('self._validate') and d not in seen:
+            name = d.split('.', 1)[1]
+            out[name] = c
+            if repo.has_func(W, f'Writer.{name}'):
+                for sub in writer_validator_calls(repo, f'Writer.{name}', seen | {d}):
+                    out.setdefault(sub, c)
+    return out
+
+
 def rule_lzma(rep: Report, repo: Repo) -> None:
-    rep.rule('C06.LZMA', 'both sides use the raw format constant and an LZMA2 filter chain from fjm_consts', 3)
+    rep.rule('C06.LZMA', 'both sides use the raw format constant and an LZMA2 filter chain from fjm_consts; the decoder is given a '
+             'dictionary at least as large as the encoder\'s for every preset the Writer accepts (raw streams do not record it)', 4)
     cw = [c for c in calls(repo.func(W, 'Writer._compress_data')) if dotted(c.func) == 'lzma.compress']
     cr = [c for c in calls(repo.func(R, 'Reader._decompress_data')) if dotted(c.func) == 'lzma.decompress']
     kw = lambda c: {k.arg: norm(k.value) for k in c.keywords}
@@ -241,8 +262,34 @@ def rule_lzma(rep: Report, repo: Repo) -> None:
     cf = repo.func(K, '_lzma_compression_filters')
     ret = [n for n in ast.walk(cf) if isinstance(n, ast.Return)][0]
     comp_id = [norm(v) for d in ast.walk(ret) if isinstance(d, ast.Dict) for k, v in zip(d.keys, d.values) if isinstance(k, ast.Constant) and k.value == 'id']
-    rep.check(fmt == ('lzma.FORMAT_RAW',) and dec == [{'id': ('lzma.FILTER_LZMA2',)}] and comp_id == ['lzma.FILTER_LZMA2'],
+    dec_ids = [d.get('id') for d in dec] if isinstance(dec, list) and all(isinstance(d, dict) for d in dec) else None
+    rep.check(fmt == ('lzma.FORMAT_RAW',) and dec_ids == [('lzma.FILTER_LZMA2',)] and comp_id == ['lzma.FILTER_LZMA2'],
               'C06.LZMA', 'consts', f'format {fmt}, decompress {dec}, compress id {comp_id}', K)
+    # a RAW stream carries no dictionary size: the decoder's must cover the encoder's for every preset the Writer accepts.
+    # reference (liblzma presets 0..9, MiB): 0.25 1 2 4 4 8 8 16 32 64; the filter default is preset 6.
+    PRESET_DICT = [1 << 18, 1 << 20, 1 << 21, 1 << 22, 1 << 22, 1 << 23, 1 << 23, 1 << 24, 1 << 25, 1 << 26]
+    wi = repo.func(W, 'Writer.__init__')
+    allowed = None
+    for test, r, _outer in raise_guards(wi):
+        t = norm(test)
+        if t.startswith('lzma_preset not in range(') and raised_class(r) == 'FlipJumpWriteFjmException':
+            try:
+                allowed = range(*[int(x) for x in t[len('lzma_preset not in range('):-1].split(',')])
+            except ValueError:
+                allowed = None
+    if allowed is None:
+        raise AnalysisError('C06.LZMA: the Writer no longer validates lzma_preset against a literal range')
+    comp_keys = {k.value for d in ast.walk(ret) if isinstance(d, ast.Dict) for k in d.keys if isinstance(k, ast.Constant)}
+    if fmt == ('lzma.FORMAT_RAW',) and isinstance(dec, list) and dec and isinstance(dec[0], dict):
+        d0 = dec[0]
+        dec_dict = d0.get('dict_size') if isinstance(d0.get('dict_size'), int) else \
+            PRESET_DICT[d0['preset']] if isinstance(d0.get('preset'), int) and 0 <= d0['preset'] <= 9 else PRESET_DICT[6]
+        need = max(PRESET_DICT[p] for p in allowed if 0 <= p <= 9) if 'dict_size' not in comp_keys else None
+        if need is None:
+            raise AnalysisError('C06.LZMA: the compression filter now sets dict_size itself - extend the rule to compare the two values')
+        rep.check(dec_dict >= need, 'C06.LZMA', 'raw-dictionary', f'decoder dictionary {dec_dict >> 20} MiB; largest encoder dictionary over presets '
+                  f'{allowed.start}..{allowed.stop - 1}: {need >> 20} MiB', K,
+                  expected='decoder dict_size >= the dictionary of every accepted preset (a raw LZMA2 stream does not record it)')
 
 
 def writer_validated(repo: Repo) -> Tuple[Set[str], Dict[str, str]]:
@@ -264,15 +311,12 @@ def writer_validated(repo: Repo) -> Tuple[Set[str], Dict[str, str]]:
                                                                       or 'word_mask' in t or '>>' in t):
                 got.add('V10')
                 where['V10'] = f'{W}:{test.lineno} {fn}'
-        for c in calls(f):
-            d = dotted(c.func)
-            if d == 'self._validate_segment_not_overlapping':
-                vf = repo.func(W, 'Writer._validate_segment_not_overlapping')
-                sub = [dotted(x.func) for x in calls(vf)]
-                if 'self._validate_segment_addresses_not_overlapping' in sub:
-                    got.add('V7'); where['V7'] = f'{W}:{vf.lineno}'
-                if 'self._validate_segment_data_not_overlapping' in sub:
-                    got.add('V8'); where['V8'] = f'{W}:{vf.lineno}'
+        if fn == 'Writer.add_segment':
+            reached = writer_validator_calls(repo, fn)
+            if '_validate_segment_addresses_not_overlapping' in reached:
+                got.add('V7'); where['V7'] = f'{W}:{reached["_validate_segment_addresses_not_overlapping"].lineno}'
+            if '_validate_segment_data_not_overlapping' in reached:
+                got.add('V8'); where['V8'] = f'{W}:{reached["_validate_segment_data_not_overlapping"].lineno}'
     return got, where
 
 
@@ -316,7 +360,7 @@ def rule_writer_validates(rep: Report, repo: Repo) -> None:
     first_mut = min([n.lineno for n in ast.walk(add) if isinstance(n, ast.Call) and dotted(n.func) in
                      ('self._update_to_relative_jumps', 'self.segments.append')] or [0])
     last_val = max([t.lineno for t, r, _ in raise_guards(add)] + [n.lineno for n in ast.walk(add) if isinstance(n, ast.Call)
-                   and dotted(n.func) == 'self._validate_segment_not_overlapping'] or [0])
+                   and dotted(n.func).startswith('self._validate')] or [0])
     rep.check(0 < last_val < first_mut, 'C06.WRITER-VALIDATES', 'Writer.add_segment:validate-before-mutate',
               f'last validation line {last_val} < first mutation line {first_mut}', f'{W}:{add.lineno}')
 
